@@ -117,6 +117,19 @@ theorem name_expansion_dotted :
       some [(key ["ex", "com"], some ⟨2, 259200, 0, nm ["ns1", "other", "org"]⟩)] := by
   decide +kernel
 
+/-- The documented defaults written in the spec (`Spec.defaultTTL`, `Spec.defaultSoaTimers`:
+literals from the tinydns-data / dnsrocks documentation) are the extracted constants the model
+codec applies above. -/
+theorem spec_defaults_match_facts :
+    Spec.defaultTTL 0x2b 1 = Generated.dnsdata_LongTTL ∧      -- + line, A
+    Spec.defaultTTL 0x40 15 = Generated.dnsdata_LongTTL ∧     -- @ line, MX
+    Spec.defaultTTL 0x26 2 = Generated.dnsdata_LinkTTL ∧      -- & line, NS
+    Spec.defaultTTL 0x2e 2 = Generated.dnsdata_LinkTTL ∧      -- . line, NS
+    Spec.defaultTTL 0x2e 6 = Generated.dnsdata_ShortTTL ∧     -- . line, SOA
+    Spec.defaultTTL 0x5a 6 = Generated.dnsdata_ShortTTL ∧     -- Z line, SOA
+    Spec.defaultSoaTimers = [16384, 2048, 1048576, 2560] := by
+  decide
+
 /-! ## 2. row round trip -/
 
 /-- The server's row parser applied to a row the compiler wrote (head from `putrrhead`, then the
@@ -349,6 +362,99 @@ theorem serve_v1_refines_spec_core (b : Backend) (hb : b ≠ .rdbV2) (s : Store)
       .reply { ofSpec (Spec.answer ⟨viewSort l recs, maps, subnets⟩ q qtype qclass maxAns l) with
                extra := extra } :=
   ⟨_, serve_v1_core b hb s recs l h0 hl hwf q hq qtype qclass maxAns maps subnets⟩
+
+/-- (c) **Refinement.** On a store holding exactly the rows of a well-formed record list under the v1
+key layout (CDB in either bitmap mode, RocksDB v1), for a `NameOK` (lower-case) query name, every
+qtype (DS included), class, answer limit and client location `l`, the handler model replies with
+exactly `Spec.answer` — rcode, AA, answer records, answer address groups (candidate lists and
+maximum; the choice among candidates is C11), authority and additional sections, each as a list in
+the order the v1 readers produce (`viewSort`).
+
+`TargetsOK` is the forced hypothesis on the additional section: the names it is built for (NS / MX
+targets as written in the rdata, the owner of HTTPS answers) are `NameOK` — in particular
+lower-case, since the handler keeps the rdata's case in the owner of additional records while the
+spec lower-cases — and pairwise distinct, since the handler's duplicate suppression (`HasRecord`
+on the message built so far) does not see a group none of whose candidates has positive weight. -/
+theorem serve_v1_refines_spec (b : Backend) (hb : b ≠ .rdbV2) (s : Store) (recs : List Rec) (l : Bytes)
+    (h0 : RepresentsAt s recs [0, 0]) (hl : RepresentsAt s recs l) (hwf : WellFormed recs)
+    (q : List Bytes) (hq : NameOK q) (qtype qclass maxAns : Nat)
+    (maps : List MapDecl) (subnets : List SubnetDecl)
+    (ht : TargetsOK ((Spec.answer ⟨viewSort l recs, maps, subnets⟩ q qtype qclass maxAns l).answer ++
+                     (Spec.answer ⟨viewSort l recs, maps, subnets⟩ q qtype qclass maxAns l).authority)) :
+    serve ⟨b, s, l⟩ ⟨pack q, pack q, qtype, qclass, maxAns⟩ =
+      .reply (ofSpec (Spec.answer ⟨viewSort l recs, maps, subnets⟩ q qtype qclass maxAns l)) :=
+  serve_v1_full b hb s recs l h0 hl hwf q hq qtype qclass maxAns maps subnets ht
+
+/-- the same from `Represents` (all location tags) and an explicit backend -/
+theorem serve_v1_refines_spec_rep (b : Backend) (hb : (∃ sep, b = .cdb sep) ∨ b = .rdbV1) (s : Store)
+    (recs : List Rec) (l : Bytes) (hl2 : l.length = 2) (hrep : Represents s recs) (hwf : WellFormed recs)
+    (q : List Bytes) (hq : NameOK q) (qtype qclass maxAns : Nat)
+    (maps : List MapDecl) (subnets : List SubnetDecl)
+    (ht : TargetsOK ((Spec.answer ⟨viewSort l recs, maps, subnets⟩ q qtype qclass maxAns l).answer ++
+                     (Spec.answer ⟨viewSort l recs, maps, subnets⟩ q qtype qclass maxAns l).authority)) :
+    serve ⟨b, s, l⟩ ⟨pack q, pack q, qtype, qclass, maxAns⟩ =
+      .reply (ofSpec (Spec.answer ⟨viewSort l recs, maps, subnets⟩ q qtype qclass maxAns l)) := by
+  have hb' : b ≠ .rdbV2 := by
+    rcases hb with ⟨sep, h⟩ | h <;> rw [h] <;> intro h' <;> cases h'
+  exact serve_v1_full b hb' s recs l (hrep [0, 0] rfl) (hrep l hl2) hwf q hq qtype qclass maxAns maps subnets ht
+
+/-- `Represents` is satisfiable: the store obtained by writing every record's row under its v1 key
+represents the record list (owners `NameOK`-labelled, tags two bytes). -/
+theorem represents_storeOf (recs : List Rec) (h : OwnersOK recs) : Represents (storeOf recs) recs :=
+  ServeRefine.represents_storeOf recs h
+
+/-! non-vacuity: the sample zone satisfies every hypothesis, for a client in location `ab` -/
+
+example : WellFormed sampleRecs := by decide +kernel
+example : OwnersOK sampleRecs := by decide +kernel
+
+example :
+    serve ⟨.rdbV1, storeOf sampleRecs, B "ab"⟩
+        ⟨pack (N ["www", "ex", "com"]), pack (N ["www", "ex", "com"]), 1, 1, 2⟩ =
+      .reply (ofSpec (Spec.answer ⟨viewSort (B "ab") sampleRecs, [], []⟩ (N ["www", "ex", "com"]) 1 1 2 (B "ab"))) :=
+  serve_v1_refines_spec_rep .rdbV1 (Or.inr rfl) _ sampleRecs (B "ab") (by decide +kernel)
+    (represents_storeOf sampleRecs (by decide +kernel)) (by decide +kernel) _ (by decide +kernel) 1 1 2 [] []
+    (by decide +kernel)
+
+-- … and that answer holds both addresses, the one tagged `ab` first
+example :
+    (Spec.answer ⟨viewSort (B "ab") sampleRecs, [], []⟩ (N ["www", "ex", "com"]) 1 1 2 (B "ab")).answerAddrs
+      = [⟨N ["www", "ex", "com"], 1, 1, [(300, 2, [1, 2, 3, 5]), (300, 1, [1, 2, 3, 4])], 2⟩] := by
+  decide +kernel
+
+-- an MX query: the additional section carries the exchanger's address (TargetsOK holds)
+example :
+    serve ⟨.cdb false, storeOf sampleRecs, [0, 0]⟩
+        ⟨pack (N ["ex", "com"]), pack (N ["ex", "com"]), 15, 1, 1⟩ =
+      .reply (ofSpec (Spec.answer ⟨viewSort [0, 0] sampleRecs, [], []⟩ (N ["ex", "com"]) 15 1 1 [0, 0])) :=
+  serve_v1_refines_spec_rep (.cdb false) (Or.inl ⟨false, rfl⟩) _ sampleRecs [0, 0] rfl
+    (represents_storeOf sampleRecs (by decide +kernel)) (by decide +kernel) _ (by decide +kernel) 15 1 1 [] []
+    (by decide +kernel)
+
+example :
+    (Spec.answer ⟨viewSort [0, 0] sampleRecs, [], []⟩ (N ["ex", "com"]) 15 1 1 [0, 0]).additional
+      = [⟨N ["www", "ex", "com"], 1, 1, [(300, 1, [1, 2, 3, 4])], 1⟩] := by
+  decide +kernel
+
+/-! the hypothesis `SoaHasNs` is forced: an SOA whose owner has no NS makes the zone-cut walk carry
+`auth = true` up to the next NS owner, and the handler answers authoritatively (here NXDOMAIN with
+AA) where the declared data say "delegation at `ex.com`" -/
+
+def orphanSoa : List Rec := [
+  ⟨N ["a", "ex", "com"], false, [0, 0], 6, 2560, 0, soaRd⟩,
+  ⟨N ["ex", "com"], false, [0, 0], 2, 259200, 0, nm ["ns1", "ex", "com"]⟩]
+
+def flagsOf : Outcome → Option (Nat × Bool)
+  | .reply r => some (r.rcode, r.aa)
+  | _ => none
+
+example : ¬ SoaHasNs orphanSoa := by decide +kernel
+example :
+    flagsOf (serve ⟨.rdbV1, storeOf orphanSoa, [0, 0]⟩
+      ⟨pack (N ["x", "a", "ex", "com"]), pack (N ["x", "a", "ex", "com"]), 1, 1, 1⟩) = some (3, true)
+    ∧ (Spec.answer ⟨orphanSoa, [], []⟩ (N ["x", "a", "ex", "com"]) 1 1 1 [0, 0]).rcode = 0
+    ∧ (Spec.answer ⟨orphanSoa, [], []⟩ (N ["x", "a", "ex", "com"]) 1 1 1 [0, 0]).aa = false := by
+  decide +kernel
 
 end Refinement
 
